@@ -149,12 +149,12 @@ Definition ruiz_scale_data (pc0 : Precond) (d : Data) (reuse scale_cost : bool) 
     let pc2 := rz_pc st in
     do ci <- qinv (pc_c pc2) ;;
     do di <- vinv (pc_delta pc2) ;;
-    do dlbi <- vinv (head nlb (pc_delta_lb pc2)) ;;
-    do dubi <- vinv (head nub (pc_delta_ub pc2)) ;;
-    (* delta_inv, delta_lb_inv, delta_ub_inv were used as scratch storage: only the heads are rewritten *)
+    do dlbi <- vinv (pc_delta_lb pc2) ;;
+    do dubi <- vinv (pc_delta_ub pc2) ;;
+    (* delta_inv, delta_lb_inv, delta_ub_inv were used as scratch storage; all three are rewritten completely *)
     let pc3 := pc2 <| pc_c_inv := ci |> <| pc_delta_inv := di |>
-                   <| pc_delta_lb_inv := set_head dlbi (rz_it_lb st) |>
-                   <| pc_delta_ub_inv := set_head dubi (rz_it_ub st) |> in
+                   <| pc_delta_lb_inv := dlbi |>
+                   <| pc_delta_ub_inv := dubi |> in
     Ok (pc3, scale_bounds pc3 (rz_d st)).
 
 Definition ruiz_unscale_data (pc : Precond) (d : Data) : res Data :=
